@@ -33,6 +33,10 @@
 //     randomised backoff) + 250 ms after the call started, later than 100 ms
 //     after cancel() / Shutdown() returned, or at all when the context was
 //     cancelled before the call;
+//   - when nothing ends the export (no cancellation / Shutdown plan, exporter
+//     timeout unset / disabled / >= 15 s) at least one attempt reaches the
+//     collector: an export that returns an error without having asked gave up
+//     although none of the statement's reasons for giving up applies;
 //   - a partial success => nil result and, when the partial-success message
 //     carries a rejected count > 0 and/or an error_message (all six
 //     combinations of count {0, >0} x message {text, text with printf verbs,
@@ -79,8 +83,45 @@
 // 200 / 300 ms deadline and assert that both Shutdown and Export (with an
 // error) are back by deadline + 3 s and that no attempt arrives after Shutdown
 // returned. The case is abandoned at that moment, so nothing runs for minutes.
+// A third plan, shutdown_abort_retrying, calls Shutdown while the export is busy
+// RETRYING against a collector that answers retryable outcomes for ever (1..5 ms
+// back-off, MaxElapsedTime none / 1 min / 2^62 ns): only the abort ends it.
+// The context handed to Shutdown has a deadline of 200 / 300 ms or 1 ms, or has
+// ended before the call (cancelled / deadline passed).
 // The other four exporters get only the bounded variant (shutdown_in_wait with
 // a 400 ms back-off); what they do is recorded as a class label.
+//
+// The exporter's own timeout is part of the configuration, and every clause
+// holds for every setting of it: not configured (default 10 s), 0 and negative
+// (both mean "no timeout": the option documents a maximum time, the clients
+// apply it only when it is positive), 15 s .. 1 h, 2^62 ns; given through
+// WithTimeout, through OTEL_EXPORTER_OTLP_{TRACES,METRICS,LOGS}_TIMEOUT or
+// OTEL_EXPORTER_OTLP_TIMEOUT (integer milliseconds spelled plain, zero-padded,
+// with a plus sign, "-0"), through both variables (the signal-specific one is
+// documented to win) or through option and variables (the option is documented
+// to win; the overridden value is never a short one, so a precedence mistake
+// cannot raise an alarm here). These settings are drawn in every scenario
+// except the short-timeout one, in particular together with all context ends and
+// all three Shutdown-abort plans. The short-timeout scenario draws 100 / 200 ms
+// (option or environment) and, one in five, 1 ms / 1 us / 1 ns: for OTLP/HTTP
+// (timeout per attempt, attempts may never reach the collector) only together
+// with retrying disabled or a MaxElapsedTime of 300 ms / 1 s, which then is what
+// ends the export with an error.
+//
+// Size of what the collector says: the error_message of a partial success, the
+// body of an HTTP failure answer and the message of a gRPC failure status carry
+// 0 B .. 1 MiB of position-dependent filler (2^e, 2^e-1, 2^e+1, in between; e
+// in 0..20 biased towards 64 KiB .. 1 MiB): one partial success in three
+// anywhere, every answer in the "sized" scenario. The clauses do not depend on
+// it: a success carrying a partial-success message of any size is delivered (nil
+// result, no re-send) and reported once with the whole text; a retryable /
+// non-retryable failure answer is retried / final whatever the length of its
+// explanation. (1 MiB is below the 4 MiB gRPC default receive limit and below
+// the 4 MiB response bound newer upstream OTLP/HTTP clients apply.)
+//
+// Also part of a case: payloads of 1..3 items or, one in seven, 3..2049 items
+// (up to ~0.5 MB re-sent identically, plain and gzip); for the gRPC exporters,
+// one in five, the caller's own connection (WithGRPCConn) instead of an endpoint.
 //
 // Readings of the statement (conservative):
 //   - "exporter shut down": asserted relative to the moment Shutdown RETURNED.
@@ -144,6 +185,10 @@ type Step struct {
 	// ExtraDetails (gRPC failure statuses): number of other status details (ErrorInfo, DebugInfo)
 	// that precede the RetryInfo detail - or stand alone when RetryInfoMS < 0.
 	ExtraDetails int `json:"extra_details,omitempty"`
+	// Pad: number of filler bytes appended to what the collector says in this answer: to the
+	// error_message of a partial success (kind partial, shapes "" and percent), to the body of a
+	// failure answer (HTTP) / to the status message (gRPC). 0 .. about 1 MiB on a log scale.
+	Pad int `json:"pad,omitempty"`
 }
 
 // Case is one export against one scripted collector.
@@ -154,16 +199,36 @@ type Case struct {
 	InitialMS     int    `json:"initial_ms"`
 	MaxIntervalMS int    `json:"max_interval_ms"`
 	MaxElapsedMS  int    `json:"max_elapsed_ms"` // 0 = unlimited
-	TimeoutMS     int    `json:"timeout_ms"`     // 0 = option not passed (default 10 s)
-	Gzip          bool   `json:"gzip"`
+	TimeoutMS     int    `json:"timeout_ms"`     // with TimeoutVia "": 0 = option not passed (default 10 s)
+	// TimeoutVia: how the exporter's own timeout is configured.
+	//   ""               WithTimeout(TimeoutMS ms) when TimeoutMS > 0, otherwise nothing (default 10 s)
+	//   option           WithTimeout(TimeoutMS ms + TimeoutNS ns) whatever the value: 0 and negative
+	//                    (= no timeout), 1 ns, 2^62 ns
+	//   env_signal       OTEL_EXPORTER_OTLP_{TRACES,METRICS,LOGS}_TIMEOUT = TimeoutMS (milliseconds)
+	//   env_general      OTEL_EXPORTER_OTLP_TIMEOUT = TimeoutMS
+	//   env_both         signal-specific variable = TimeoutMS, general one = TimeoutOtherMS (the
+	//                    signal-specific one takes precedence - documented)
+	//   option_over_env  WithTimeout(TimeoutMS ms + TimeoutNS ns), both variables = TimeoutOtherMS
+	//                    (the option takes precedence - documented)
+	// TimeoutSpell: spelling of the integers in the variables: "" plain | zero_padded | plus | minus_zero.
+	TimeoutVia     string `json:"timeout_via,omitempty"`
+	TimeoutNS      int64  `json:"timeout_ns,omitempty"`
+	TimeoutOtherMS int    `json:"timeout_other_ms,omitempty"`
+	TimeoutSpell   string `json:"timeout_spell,omitempty"`
+	Gzip           bool   `json:"gzip"`
 	// Plan: none | pre_cancelled | cancel_in_attempt | cancel_in_wait | shutdown_in_wait |
 	// shutdown_abort_wait | shutdown_abort_attempt (the two trace exporters only: Shutdown
 	// with a short deadline while the export sits in a wait / an attempt that only an abort ends)
 	Plan        string `json:"plan"`
-	PlanK       int    `json:"plan_k"`                // attempt index the plan is tied to
-	PlanDelayMS int    `json:"plan_delay_ms"`         // pause between the trigger and cancel()/Shutdown()
-	ShutdownMS  int    `json:"shutdown_ms,omitempty"` // deadline of the context handed to Shutdown (0 = 50 ms)
-	Items       int    `json:"items"`                 // spans / metrics / records in the payload
+	PlanK       int    `json:"plan_k"`        // attempt index the plan is tied to
+	PlanDelayMS int    `json:"plan_delay_ms"` // pause between the trigger and cancel()/Shutdown()
+	// ShutdownMS: the context handed to Shutdown: > 0 deadline in ms, 0 = 50 ms, -1 = a context
+	// that was cancelled before the call, -2 = one whose deadline passed before the call
+	ShutdownMS int `json:"shutdown_ms,omitempty"`
+	// Conn (gRPC exporters): the exporter is given the caller's own *grpc.ClientConn (WithGRPCConn)
+	// instead of an endpoint; the exporter does not close it.
+	Conn  bool `json:"conn,omitempty"`
+	Items int  `json:"items"` // spans / metrics / records in the payload
 	// Headers: number of key/value pairs configured with WithHeaders (0 = option not passed).
 	Headers int `json:"headers,omitempty"`
 	// Interfere > 0: when answer InterfereK (a retryable one) has been given, i.e. while the
@@ -250,6 +315,96 @@ func (c Case) hugeBackoff() bool {
 
 // unlimited: no MaxElapsedTime at all.
 func (c Case) unlimited() bool { return c.maxElapsed() == 0 }
+
+// timeout is the exporter timeout the case configures (whatever the route:
+// option, environment) and whether it configures one at all.
+func (c Case) timeout() (time.Duration, bool) {
+	switch c.TimeoutVia {
+	case "":
+		if c.TimeoutMS > 0 {
+			return time.Duration(c.TimeoutMS) * time.Millisecond, true
+		}
+		return 0, false
+	case "option", "option_over_env":
+		return time.Duration(c.TimeoutMS)*time.Millisecond + time.Duration(c.TimeoutNS), true
+	}
+	return time.Duration(c.TimeoutMS) * time.Millisecond, true
+}
+
+// shortTO: a positive timeout of at most shortTimeout: it may legitimately cut attempts.
+func (c Case) shortTO() bool {
+	d, ok := c.timeout()
+	return ok && d > 0 && d <= shortTimeout*time.Millisecond
+}
+
+// tinyTO: a positive timeout so small that an attempt may never reach the collector.
+func (c Case) tinyTO() bool {
+	d, ok := c.timeout()
+	return ok && d > 0 && d < 50*time.Millisecond
+}
+
+func (c Case) timeoutClass() string {
+	d, ok := c.timeout()
+	switch {
+	case !ok:
+		return "unset(default)"
+	case d == 0:
+		return "zero"
+	case d < 0:
+		return "negative"
+	case c.tinyTO():
+		return "tiny(<50ms)"
+	case c.shortTO():
+		return "short(100..2000ms)"
+	case d <= time.Hour:
+		return "long(15s..1h)"
+	}
+	return "huge(2^62ns)"
+}
+
+// envSpelling spells an integer number of milliseconds for a *_TIMEOUT variable.
+func envSpelling(ms int, style string) string {
+	s := strconv.Itoa(ms)
+	switch style {
+	case "zero_padded":
+		if ms < 0 {
+			return "-00" + s[1:]
+		}
+		return "00" + s
+	case "plus":
+		if ms >= 0 {
+			return "+" + s
+		}
+	case "minus_zero":
+		if ms == 0 {
+			return "-0"
+		}
+	}
+	return s
+}
+
+// timeoutEnv: the environment the exporter is constructed in.
+func (c Case) timeoutEnv() map[string]string {
+	sig := map[string]string{"trace": "TRACES", "metric": "METRICS", "log": "LOGS"}[exporters[c.Exporter].signal]
+	specific, general := "OTEL_EXPORTER_OTLP_"+sig+"_TIMEOUT", "OTEL_EXPORTER_OTLP_TIMEOUT"
+	switch c.TimeoutVia {
+	case "env_signal":
+		return map[string]string{specific: envSpelling(c.TimeoutMS, c.TimeoutSpell)}
+	case "env_general":
+		return map[string]string{general: envSpelling(c.TimeoutMS, c.TimeoutSpell)}
+	case "env_both":
+		return map[string]string{specific: envSpelling(c.TimeoutMS, c.TimeoutSpell), general: envSpelling(c.TimeoutOtherMS, c.TimeoutSpell)}
+	case "option_over_env":
+		return map[string]string{specific: envSpelling(c.TimeoutOtherMS, c.TimeoutSpell), general: envSpelling(c.TimeoutOtherMS, c.TimeoutSpell)}
+	}
+	return nil
+}
+
+// abortPlan: Shutdown with a short deadline while the export is in something
+// only an abort ends (the two trace exporters only).
+func abortPlan(p string) bool {
+	return p == "shutdown_abort_wait" || p == "shutdown_abort_attempt" || p == "shutdown_abort_retrying"
+}
 
 // ctxPlan: the plan ends the export context (as opposed to shutting the exporter down).
 func ctxPlan(p string) bool {
@@ -492,7 +647,90 @@ func (g *genCtx) partialStep(t *rapid.T) Step {
 	if !g.grpc {
 		st.Code = 200
 	}
+	if rng(t, "sized_partial", 0, 2) == 0 {
+		st.Pad = genPad(t)
+	}
 	return st
+}
+
+// genPad draws the size of what the collector says (partial-success
+// error_message, failure body / status message) on a log scale: 2^e for e in
+// 0..20 (a quarter up to 512 B, a third 1..32 KiB, the rest 64 KiB..1 MiB),
+// exactly the power of two, one below, one above, or somewhere up to the next.
+func genPad(t *rapid.T) int {
+	var e int
+	switch pick(t, "pad_magnitude", 25, 35, 40) {
+	case 0:
+		e = rng(t, "pad_exp", 0, 9)
+	case 1:
+		e = rng(t, "pad_exp", 10, 15)
+	default:
+		e = rng(t, "pad_exp", 16, 20)
+	}
+	base := 1 << e
+	switch pick(t, "pad_offset", 40, 20, 20, 20) {
+	case 1:
+		return base - 1
+	case 2:
+		return base + 1
+	case 3:
+		if e < 20 {
+			return base + base*rng(t, "pad_fraction", 1, 15)/16
+		}
+	}
+	return base
+}
+
+// genLongTimeout draws the exporter's own timeout setting from everything that
+// does not cut an attempt of the case short: not configured (default 10 s), 0
+// and negative (no timeout at all), 15 s .. 1 h, 2^62 ns - given through the
+// option, the signal-specific or the general *_TIMEOUT environment variable
+// (integers of milliseconds, plain / zero-padded / with a plus sign / "-0"),
+// both variables (the signal-specific one wins), option and variables (the
+// option wins). The statement's clauses hold for every one of them.
+func genLongTimeout(t *rapid.T, c *Case) {
+	c.TimeoutMS, c.TimeoutNS, c.TimeoutVia, c.TimeoutOtherMS, c.TimeoutSpell = 0, 0, "", 0, ""
+	v := pick(t, "timeout_value", 22, 28, 20, 30)
+	if v == 0 {
+		return
+	}
+	c.TimeoutVia = []string{"option", "env_signal", "env_general", "env_both", "option_over_env"}[pick(t, "timeout_via", 40, 20, 15, 12, 13)]
+	opt := c.TimeoutVia == "option" || c.TimeoutVia == "option_over_env"
+	switch v {
+	case 2:
+		c.TimeoutMS = oneOf(t, "timeout_ms", -1, -5000, -10000)
+		if opt && rng(t, "timeout_minus_1ns", 0, 3) == 0 {
+			c.TimeoutMS, c.TimeoutNS = 0, -1
+		}
+	case 3:
+		c.TimeoutMS = oneOf(t, "timeout_ms", 15000, 30000, 3600000)
+		if opt && rng(t, "timeout_huge", 0, 4) == 0 {
+			c.TimeoutMS, c.TimeoutNS = 0, 1<<62
+		}
+	}
+	if c.TimeoutVia != "option" {
+		c.TimeoutSpell = oneOf(t, "timeout_spell", "", "", "zero_padded", "plus", "minus_zero")
+	}
+	if c.TimeoutVia == "env_both" || c.TimeoutVia == "option_over_env" {
+		c.TimeoutOtherMS = oneOf(t, "timeout_other_ms", 0, -1, 20000, 3600000)
+	}
+}
+
+// genShortTimeout: a timeout that cuts held requests (100 / 200 ms) or, one in
+// five, hardly lets an attempt through at all (1 ms, 1 us, 1 ns), through the
+// option or the environment.
+func genShortTimeout(t *rapid.T, c *Case) {
+	c.TimeoutMS = oneOf(t, "timeout_ms", 100, 200)
+	c.TimeoutVia = oneOf(t, "timeout_via", "", "", "option", "env_signal", "env_general")
+	if c.TimeoutVia == "env_signal" || c.TimeoutVia == "env_general" {
+		c.TimeoutSpell = oneOf(t, "timeout_spell", "", "zero_padded")
+	}
+	if rng(t, "tiny_timeout", 0, 4) == 0 {
+		c.TimeoutVia, c.TimeoutMS, c.TimeoutSpell = oneOf(t, "timeout_via", "option", "option", "env_signal"), 1, ""
+		if c.TimeoutVia == "option" && rapid.Bool().Draw(t, "sub_ms_timeout") {
+			c.TimeoutMS, c.TimeoutNS = 0, oneOf[int64](t, "timeout_ns", 1, 1000)
+		}
+	}
 }
 
 func (g *genCtx) terminalStep(t *rapid.T) Step {
@@ -646,9 +884,7 @@ func genContextEnd(t *rapid.T, c *Case, g *genCtx) {
 	}
 	c.Endless = rng(t, "endless", 0, 7) > 0
 	c.PlanDelayMS = rng(t, "plan_delay_ms", 0, 3)
-	if rng(t, "explicit_timeout", 0, 5) == 0 {
-		c.TimeoutMS = 30000
-	}
+	genLongTimeout(t, c)
 	n := oneOf(t, "len", 1, 1, 2, 2, 3)
 	switch pick(t, "ctx_end", 15, 20, 35, 18, 12) {
 	case 0:
@@ -708,6 +944,11 @@ func genCase(isGRPC bool) func(*rapid.T) Case {
 			c.Exporter = oneOf(t, "exporter", httpExporters...)
 		}
 		c.Items = rng(t, "items", 1, 3)
+		if rng(t, "big_payload", 0, 6) == 0 {
+			// 3 .. 2049 items: payloads of 1 KB .. 0.5 MB that are re-sent
+			c.Items = 1<<rng(t, "items_exp", 2, 11) + rng(t, "items_offset", -1, 1)
+		}
+		c.Conn = isGRPC && rng(t, "own_grpc_conn", 0, 4) == 0
 		c.Gzip = rng(t, "gzip", 0, 2) == 0
 		c.Headers = oneOf(t, "headers", 0, 1, 2)
 		g := &genCtx{grpc: isGRPC, longHints: 2, longSlow: 1}
@@ -734,9 +975,13 @@ func genCase(isGRPC bool) func(*rapid.T) Case {
 		if isGRPC {
 			hugeHint = 0
 		}
-		scenario := pick(t, "scenario", 46, 10, 4, 10, 16, 14, 8, 6, 7, hugeHint, 24)
+		scenario := pick(t, "scenario", 46, 10, 4, 10, 16, 14, 12, 6, 7, hugeHint, 24, 22)
+		sized := scenario == 11
 		if scenario == 10 {
 			genContextEnd(t, &c, g)
+			if c.Endless && c.Items > 16 {
+				c.Items = 16
+			}
 			return c
 		}
 		switch scenario {
@@ -751,21 +996,30 @@ func genCase(isGRPC bool) func(*rapid.T) Case {
 					c.MaxElapsedMS, c.MaxElapsedNS = 0, oneOf[int64](t, "max_elapsed_ns", 1, 1000)
 				}
 			}
-			if rng(t, "explicit_timeout", 0, 3) == 0 {
-				c.TimeoutMS = 15000
-			}
+		case 11:
+			// sized answers: every answer of the script carries 1 B .. 1 MiB (partial-success
+			// error_message, failure body / status message)
+			fast(0, 0, 5000)
 		case 1: // the exporter's own timeout cuts held requests
 			fast(0, 5000)
-			c.TimeoutMS = oneOf(t, "timeout_ms", 100, 200)
+			genShortTimeout(t, &c)
 			g.allowHold = true
+			if c.tinyTO() && !isGRPC {
+				// OTLP/HTTP applies the timeout to each attempt: with a timeout that hardly lets
+				// an attempt through only MaxElapsedTime (or retrying being disabled) ends the export
+				if rng(t, "retry_disabled", 0, 3) == 0 {
+					c.RetryEnabled = false
+				} else {
+					c.MaxElapsedMS, c.MaxElapsedNS = oneOf(t, "max_elapsed_ms", 300, 1000), 0
+				}
+			}
 		case 2:
 			c.Plan = "pre_cancelled"
 			fast(0, 500)
 		case 3:
 			c.Plan = "cancel_in_attempt"
 			fast(0, 5000)
-			// with a long timeout only the cancellation can end the held attempt in time
-			c.TimeoutMS = oneOf(t, "timeout_ms", 0, 30000)
+			// whatever the exporter's timeout: only the cancellation can end the held attempt in time
 		case 4:
 			c.Plan = "cancel_in_wait"
 			switch pick(t, "backoff", 40, 25, 35) {
@@ -791,14 +1045,47 @@ func genCase(isGRPC bool) func(*rapid.T) Case {
 			} else {
 				c.Exporter = "otlptracehttp"
 			}
-			c.ShutdownMS = oneOf(t, "shutdown_ms", 200, 300)
-			if rapid.Bool().Draw(t, "abort_in_wait") {
+			// Third variant: the export is busy RETRYING against a collector that answers
+			// retryable outcomes for ever (1..5 ms back-off, MaxElapsedTime none / 1 min /
+			// 2^62 ns): only the abort ends it.
+			// All three for every setting of the exporter's own timeout that does not end the
+			// export by itself (unset, 0, negative, 15 s .. 2^62 ns; option / environment).
+			// The context given to Shutdown: a deadline of 200 / 300 ms, of 1 ms, or a context
+			// that has ended before the call (cancelled / deadline passed).
+			c.ShutdownMS = oneOf(t, "shutdown_ms", 200, 300, 200, 300, 1, -1, -2)
+			switch pick(t, "abort_in", 30, 30, 40) {
+			case 0:
 				c.Plan = "shutdown_abort_wait"
 				c.RetryEnabled, c.InitialMS, c.MaxIntervalMS, c.MaxElapsedMS = true, 600000, 600000, 0
-			} else {
+			case 1:
 				c.Plan = "shutdown_abort_attempt"
 				fast(0, 5000)
-				c.TimeoutMS = oneOf(t, "timeout_ms", 0, 30000)
+			default:
+				c.Plan = "shutdown_abort_retrying"
+				c.RetryEnabled, c.InitialMS, c.MaxIntervalMS = true, 1, 5
+				c.MaxElapsedMS = oneOf(t, "max_elapsed_ms", 0, 0, 60000)
+				if rng(t, "huge_max_elapsed", 0, 4) == 0 {
+					c.MaxElapsedMS, c.MaxElapsedNS = 0, 1<<62
+				}
+				c.Endless = true
+				if c.Items > 16 {
+					c.Items = 16
+				}
+				c.PlanK = rng(t, "plan_k", 0, 4) // Shutdown is called when answer K has been given
+				c.PlanDelayMS = rng(t, "plan_delay_ms", 0, 3)
+				g.hinted = false
+				for i, n := 0, oneOf(t, "len", 1, 1, 2, 3); i < n; i++ {
+					st := g.retryableStep(t)
+					if st.RetryInfoMS > 30 {
+						st.RetryInfoMS = 30
+					}
+					if !isGRPC && rng(t, "temporary_network_error", 0, 5) == 0 && i < n-1 {
+						st = Step{Kind: "proxy_temporary_error", RetryInfoMS: -1}
+					}
+					c.Script = append(c.Script, st)
+				}
+				genLongTimeout(t, &c)
+				return c
 			}
 		case 9:
 			// Retry-After values around and above 2^31 / 2^32 (HTTP). Three quarters:
@@ -841,6 +1128,9 @@ func genCase(isGRPC bool) func(*rapid.T) Case {
 			}
 		}
 		c.PlanDelayMS = rng(t, "plan_delay_ms", 0, 3)
+		if scenario != 1 {
+			genLongTimeout(t, &c)
+		}
 		if c.Exporter == "otlptracehttp" || c.Exporter == "otlptracegrpc" {
 			switch pick(t, "life", 65, 27, 8) {
 			case 1:
@@ -849,13 +1139,13 @@ func genCase(isGRPC bool) func(*rapid.T) Case {
 				c.Life = "start_twice"
 			}
 		}
-		if c.Plan == "none" && c.Interfere == 0 && c.AgeMS == 0 && c.HugeRetryAfter == "" && c.TimeoutMS == 0 && rng(t, "shutdown_then_export", 0, 39) == 0 {
+		if c.Plan == "none" && c.Interfere == 0 && c.AgeMS == 0 && c.HugeRetryAfter == "" && !c.shortTO() && rng(t, "shutdown_then_export", 0, 39) == 0 {
 			c.Life = "shutdown_then_export"
 		}
 
 		slowBackoff := c.InitialMS >= 100
 		n := oneOf(t, "len", 1, 2, 2, 3, 3, 3, 4, 4, 5, 6)
-		if slowBackoff && n > 3 {
+		if (slowBackoff || sized) && n > 3 {
 			n = 3
 		}
 		switch c.Plan {
@@ -929,10 +1219,28 @@ func genCase(isGRPC bool) func(*rapid.T) Case {
 				if st.RetryInfoMS > 30 {
 					st.RetryInfoMS = 30
 				}
+			case sized && i == n-1:
+				// mostly a partial success whose message is reported (text present)
+				if rng(t, "sized_partial", 0, 9) < 6 {
+					st = g.partialStep(t)
+					if st.Msg == "empty" && rng(t, "sized_text", 0, 3) > 0 {
+						st.Msg = oneOf(t, "partial_msg", "", "", "percent")
+					}
+				} else {
+					st = g.terminalStep(t)
+				}
+			case sized:
+				st = g.retryableStep(t)
+				if st.RetryInfoMS > 30 {
+					st.RetryInfoMS = 30
+				}
 			case i == n-1:
 				st = g.terminalStep(t)
 			default:
 				st = g.innerStep(t)
+			}
+			if sized {
+				st.Pad = genPad(t)
 			}
 			if c.InitialMS > 5000 && i < c.PlanK {
 				st = g.terminalStep(t) // unreachable by construction (PlanK == 0); keeps the case finite anyway
@@ -944,7 +1252,7 @@ func genCase(isGRPC bool) func(*rapid.T) Case {
 		// delay, MaxElapsedTime is 500 ms. After the second answer the elapsed
 		// time plus the hint exceeds the budget: the exporter has to give up
 		// instead of sleeping through the hint and sending a third attempt.
-		if isGRPC && c.Plan == "none" && c.Interfere == 0 && c.AgeMS == 0 && c.RetryEnabled && c.TimeoutMS == 0 && rng(t, "hint_budget", 0, 7) == 0 {
+		if isGRPC && c.Plan == "none" && c.Interfere == 0 && c.AgeMS == 0 && c.RetryEnabled && !c.shortTO() && !sized && rng(t, "hint_budget", 0, 7) == 0 {
 			c.InitialMS, c.MaxIntervalMS, c.MaxElapsedMS = 1, 5, 500
 			c.InitialNS, c.MaxIntervalNS, c.MaxElapsedNS = 0, 0, 0
 			k := rng(t, "hint_budget_len", 2, 4)
@@ -986,14 +1294,55 @@ func stepRetryable(isGRPC bool, st Step) bool {
 // behaves: every held request has a reason to be abandoned and waits that only
 // a cancellation ends are cancelled.
 func finite(c Case) bool {
-	if _, ok := exporters[c.Exporter]; !ok || len(c.Script) == 0 || len(c.Script) > 8 || c.Items < 1 || c.Items > 16 {
+	if _, ok := exporters[c.Exporter]; !ok || len(c.Script) == 0 || len(c.Script) > 8 || c.Items < 1 || c.Items > 4096 || (c.Items > 16 && c.Endless) || (c.Conn && !exporters[c.Exporter].grpc) {
 		return false
 	}
-	short := c.TimeoutMS > 0 && c.TimeoutMS <= shortTimeout
+	short := c.shortTO()
+	switch c.TimeoutVia {
+	case "":
+		if c.TimeoutMS < 0 || c.TimeoutNS != 0 || c.TimeoutOtherMS != 0 || c.TimeoutSpell != "" {
+			return false
+		}
+	case "option", "option_over_env":
+		if c.TimeoutNS != 0 && c.TimeoutMS != 0 {
+			return false
+		}
+	case "env_signal", "env_general", "env_both":
+		if c.TimeoutNS != 0 {
+			return false
+		}
+	default:
+		return false
+	}
+	if c.TimeoutMS < -10000000 || c.TimeoutMS > 10000000 || c.TimeoutOtherMS < -10000000 || c.TimeoutOtherMS > 10000000 {
+		return false
+	}
+	if c.TimeoutOtherMS > 0 && c.TimeoutOtherMS <= 12000 {
+		return false // the value that is overridden never is one that would matter if it were not
+	}
+	switch c.TimeoutSpell {
+	case "", "zero_padded", "plus", "minus_zero":
+	default:
+		return false
+	}
+	if c.tinyTO() && !exporters[c.Exporter].grpc && c.RetryEnabled && !(c.maxElapsed() > 0 && c.maxElapsed() <= 5*time.Second) {
+		// OTLP/HTTP: the timeout bounds each attempt, and attempts that never reach the
+		// collector do not consume the script: only MaxElapsedTime ends such an export
+		return false
+	}
+	if d, ok := c.timeout(); ok && d > 0 && d < 12*time.Second && !short {
+		return false // between "short" and "longer than anything the case needs": not generated
+	}
+	if short && (abortPlan(c.Plan) || c.Endless) {
+		return false
+	}
 	for i, st := range c.Script {
+		if st.Pad < 0 || st.Pad > 1<<21 {
+			return false
+		}
 		switch st.Kind {
 		case "hold":
-			if !(short || (c.Plan == "cancel_in_attempt" && c.PlanK == i) || (c.Plan == "shutdown_abort_attempt" && c.PlanK == i)) {
+			if !(short || (c.Plan == "cancel_in_attempt" && c.PlanK == i) || (c.Plan == "shutdown_abort_attempt" && c.PlanK == i)) || c.Plan == "shutdown_abort_retrying" {
 				return false
 			}
 		case "status", "partial", "reset", "slow":
@@ -1037,7 +1386,11 @@ func finite(c Case) bool {
 		if n, ok := retryAfterSeconds(last.RetryAfter); ok && n > 0 {
 			return false
 		}
-		if !ctxPlan(c.Plan) && c.RetryEnabled && !(c.maxElapsed() > 0 && c.maxElapsed() <= 2*time.Second) {
+		if !ctxPlan(c.Plan) && c.Plan != "shutdown_abort_retrying" && c.RetryEnabled && !(c.maxElapsed() > 0 && c.maxElapsed() <= 2*time.Second) {
+			return false
+		}
+		if c.Plan == "shutdown_abort_retrying" && (!c.RetryEnabled || c.initial() < time.Millisecond || c.initial() > 10*time.Millisecond || c.maxInterval() > 10*time.Millisecond) {
+			// the back-off keeps the endless collector's log (maxLog) from filling up before the verdict
 			return false
 		}
 		if c.Interfere != 0 || c.Warmup || c.AgeMS != 0 || c.Life != "" {
@@ -1052,15 +1405,21 @@ func finite(c Case) bool {
 	}
 	switch c.Plan {
 	case "none", "pre_cancelled", "pre_expired", "deadline", "cancel_in_attempt", "cancel_in_wait", "shutdown_in_wait":
-	case "shutdown_abort_wait", "shutdown_abort_attempt":
-		// unbounded waits / held attempts under Shutdown only where Shutdown is meant to abort them
+	case "shutdown_abort_wait", "shutdown_abort_attempt", "shutdown_abort_retrying":
+		if c.Plan == "shutdown_abort_retrying" && !c.Endless {
+			return false
+		}
+		if c.PlanK < 0 || c.PlanK > 16 {
+			return false
+		}
+		// unbounded waits / held attempts / endless retrying under Shutdown only where Shutdown is meant to abort them
 		if c.Exporter != "otlptracehttp" && c.Exporter != "otlptracegrpc" {
 			return false
 		}
 	default:
 		return false
 	}
-	if c.ShutdownMS < 0 || c.ShutdownMS > 2000 || c.Headers < 0 || c.Headers > 2 {
+	if c.ShutdownMS < -2 || c.ShutdownMS > 2000 || c.Headers < 0 || c.Headers > 2 {
 		return false
 	}
 	switch c.Life {
@@ -1112,6 +1471,9 @@ func shutdownDeadline(c Case) time.Duration {
 	if c.ShutdownMS > 0 {
 		return time.Duration(c.ShutdownMS) * time.Millisecond
 	}
+	if c.ShutdownMS < 0 {
+		return 0 // the context has ended before Shutdown is called
+	}
 	return shutdownGrace
 }
 
@@ -1129,8 +1491,8 @@ func budget(c Case) time.Duration {
 		case "slow":
 			d += time.Duration(st.DelayMS) * time.Millisecond
 		case "hold":
-			if c.TimeoutMS > 0 && c.TimeoutMS <= shortTimeout {
-				d += time.Duration(c.TimeoutMS) * time.Millisecond
+			if to, _ := c.timeout(); c.shortTO() {
+				d += to
 			} else {
 				d += 200 * time.Millisecond
 			}
@@ -1147,8 +1509,13 @@ func budget(c Case) time.Duration {
 			}
 		}
 	}
-	if c.Endless && c.RetryEnabled && !ctxPlan(c.Plan) {
+	if c.Plan == "shutdown_abort_retrying" {
+		d += time.Duration(c.PlanK+1)*(wait+30*time.Millisecond) + shutdownDeadline(c) + abortSlack
+	} else if c.Endless && c.RetryEnabled && !ctxPlan(c.Plan) {
 		d += c.maxElapsed() // at most 2 s, see finite
+	}
+	if c.tinyTO() && !exporters[c.Exporter].grpc && c.RetryEnabled {
+		d += c.maxElapsed() // at most 5 s, see finite
 	}
 	d += time.Duration(c.DeadlineMS) * time.Millisecond
 	return d + wait + time.Second
@@ -1200,7 +1567,10 @@ func execute(c Case) (ob observation) {
 		addr, stop = col.startHTTP()
 	}
 	rc := retryCfg{Enabled: c.RetryEnabled, Initial: c.initial(), MaxInterval: c.maxInterval(), MaxElapsed: c.maxElapsed()}
-	opts := handleOpts{life: c.Life, rc: rc, timeout: time.Duration(c.TimeoutMS) * time.Millisecond, gz: c.Gzip, items: c.Items, mark: markMain}
+	opts := handleOpts{life: c.Life, rc: rc, gz: c.Gzip, items: c.Items, mark: markMain, env: c.timeoutEnv(), ownConn: c.Conn}
+	if c.TimeoutVia == "" || c.TimeoutVia == "option" || c.TimeoutVia == "option_over_env" {
+		opts.timeout, opts.timeoutSet = c.timeout()
+	}
 	if c.Headers > 0 {
 		opts.headers = map[string]string{}
 		for _, kv := range caseHeaders[:c.Headers] {
@@ -1236,6 +1606,13 @@ func execute(c Case) (ob observation) {
 		}
 	}
 	ctx, cancel := context.WithCancel(context.Background())
+	closeConns := func() {
+		for _, f := range []func(){h.close, other.close} {
+			if f != nil {
+				bounded(5*time.Second, f)
+			}
+		}
+	}
 
 	var mu sync.Mutex // guards ob.cancelAt / shutdownAt / planFired
 	var planWG sync.WaitGroup
@@ -1271,7 +1648,7 @@ func execute(c Case) (ob observation) {
 		mu.Unlock()
 		ctxEnded(0)
 	}
-	abortPlan := c.Plan == "shutdown_abort_wait" || c.Plan == "shutdown_abort_attempt"
+	abortPlan := abortPlan(c.Plan)
 	abortCh := make(chan struct{})
 	doShutdown := func() {
 		d := shutdownDeadline(c)
@@ -1282,6 +1659,16 @@ func execute(c Case) (ob observation) {
 			time.AfterFunc(d+abortSlack, func() { close(abortCh) })
 		}
 		sctx, sc := context.WithTimeout(context.Background(), d)
+		switch c.ShutdownMS {
+		case -1:
+			sc()
+			sctx, sc = context.WithCancel(context.Background())
+			sc()
+		case -2:
+			sc()
+			sctx, sc = context.WithDeadline(context.Background(), time.Now().Add(-time.Second))
+			<-sctx.Done()
+		}
 		_ = h.shutdown(sctx)
 		sc()
 		t := col.now()
@@ -1354,7 +1741,7 @@ func execute(c Case) (ob observation) {
 				fire(doCancel)
 			}
 		}
-	case "shutdown_in_wait", "shutdown_abort_wait":
+	case "shutdown_in_wait", "shutdown_abort_wait", "shutdown_abort_retrying":
 		col.onRespond = func(step int) {
 			if step == c.PlanK {
 				fire(doShutdown)
@@ -1460,6 +1847,7 @@ func execute(c Case) (ob observation) {
 				sc()
 			})
 		}
+		closeConns()
 		ob.cleanupStuck = !bounded(15*time.Second, stop) || ob.cleanupStuck
 	} else {
 		// give up on the blocked call (the case is a violation anyway):
@@ -1472,6 +1860,7 @@ func execute(c Case) (ob observation) {
 		}
 		t.Stop()
 		waitPlan(2 * time.Second)
+		closeConns()
 		ob.cleanupStuck = !bounded(15*time.Second, stop)
 	}
 	mu.Lock()
@@ -1541,7 +1930,7 @@ func evaluate(c Case, ob observation) []vk.Violation {
 			es[i].Outcome = oAbandoned
 		}
 	}
-	abortPlan := c.Plan == "shutdown_abort_wait" || c.Plan == "shutdown_abort_attempt"
+	abortPlan := abortPlan(c.Plan)
 	if abortPlan && ob.shutdownCalledAt >= 0 {
 		// Shutdown(ctx with a short deadline) was called while the export sat in
 		// a wait / an attempt that only an abort ends: both calls must be back
@@ -1549,10 +1938,10 @@ func evaluate(c Case, ob observation) []vk.Violation {
 		d := shutdownDeadline(c)
 		by := ob.shutdownCalledAt + d + abortSlack
 		if !ob.returned || ob.ret > by {
-			bad("export_not_aborted_by_shutdown", "Export was still running %v after Shutdown (deadline %v) was called", d+abortSlack, d)
+			bad("export_not_aborted_by_shutdown", "Export was still running %v after Shutdown (deadline %v) was called (plan %s; exporter timeout %s via %q)", d+abortSlack, d, c.Plan, c.timeoutClass(), c.TimeoutVia)
 		}
 		if ob.shutdownAt < 0 || ob.shutdownAt > by {
-			bad("shutdown_blocked_beyond_deadline", "Shutdown had not returned %v after it was called with a deadline of %v", d+abortSlack, d)
+			bad("shutdown_blocked_beyond_deadline", "Shutdown had not returned %v after it was called with a deadline of %v (plan %s; exporter timeout %s via %q)", d+abortSlack, d, c.Plan, c.timeoutClass(), c.TimeoutVia)
 		}
 	}
 	ctxEnd := ob.cancelAt // moment the export context ended, -1 = it did not
@@ -1580,7 +1969,7 @@ func evaluate(c Case, ob observation) []vk.Violation {
 		// dropped); the statement only says that it never blocks.
 		return vs
 	}
-	shortTO := c.TimeoutMS > 0 && c.TimeoutMS <= shortTimeout
+	shortTO := c.shortTO()
 	// nothing but the scripted answers can have ended an attempt or the call
 	undisturbed := !ob.planFired && !shortTO
 	maxElapsed := c.maxElapsed()
@@ -1730,11 +2119,20 @@ func evaluate(c Case, ob observation) []vk.Violation {
 		}
 	}
 	lastOK := last != nil && (last.Outcome == oSuccess || last.Outcome == oPartial)
+	if last == nil && ob.err != nil && undisturbed && c.Plan == "none" {
+		// "gives up with an error ONCE the maximum elapsed time would be exceeded or the
+		// context is cancelled or the exporter shut down": here the context is alive, the
+		// exporter is not shut down, its own timeout is absent / disabled / >= 10 s and
+		// MaxElapsedTime is looked at after an attempt only - yet the collector was never asked
+		// and its first answer (a success, or whatever the script says) was never reported.
+		to, _ := c.timeout()
+		bad("gave_up_without_an_attempt", "Export returned %q without a single attempt reaching the collector although nothing ended it (context alive, no Shutdown, exporter timeout %s = %v via %q)", clip(ob.err.Error()), c.timeoutClass(), to, c.TimeoutVia)
+	}
 	if ob.err == nil && !lastOK {
 		bad("nil_result_without_success", "Export returned nil but the last answer was not a success")
 	}
 	if ob.err != nil && lastOK && undisturbed {
-		bad("error_result_after_success", "Export returned %q although the last answer was a success", ob.err)
+		bad("error_result_after_success", "Export returned %q although the last answer was a success (%s)", clip(ob.err.Error()), last.Desc)
 	}
 	if last != nil && last.Outcome == oRetryable && c.RetryEnabled && c.unlimited() && undisturbed {
 		bad("no_retry_after_retryable", "Export gave up (%v) after a retryable answer (%s) with retrying enabled and no time limit", ob.err, last.Desc)
@@ -1770,7 +2168,7 @@ func evaluate(c Case, ob observation) []vk.Violation {
 		if e.Outcome != oPartial || !ok {
 			return false
 		}
-		text := partialText(ob.tag, e.Step, st.Msg)
+		text := partialText(ob.tag, e.Step, st.Msg, st.Pad)
 		if text == "" && st.Rejected == 0 {
 			return !strings.Contains(h, "c14-r")
 		}
@@ -1781,25 +2179,25 @@ func evaluate(c Case, ob observation) []vk.Violation {
 	var rejected int64
 	if last != nil && last.Outcome == oPartial {
 		if st, ok := c.stepAt(last.Step); ok {
-			want, rejected = partialText(ob.tag, last.Step, st.Msg), st.Rejected
+			want, rejected = partialText(ob.tag, last.Step, st.Msg, st.Pad), st.Rejected
 			expectReport = want != "" || rejected != 0
 			saysNothing = !expectReport
 		}
 	}
-	shape := fmt.Sprintf("error_message %q, rejected count %d", want, rejected)
+	shape := fmt.Sprintf("error_message %q, rejected count %d", clip(want), rejected)
 	switch {
 	case saysNothing:
 	case expectReport && ob.err == nil && orderReliable:
 		if len(ob.handled) == 0 {
 			bad("partial_success_not_reported", "no error reached the error handler for the partial success (%s)", shape)
 		} else if len(ob.handled) > 1 {
-			bad("partial_success_reported_twice", "%d errors reached the error handler: %q", len(ob.handled), ob.handled)
+			bad("partial_success_reported_twice", "%d errors reached the error handler: %q", len(ob.handled), clipAll(ob.handled))
 		} else if !explains(*last, ob.handled[0]) {
-			bad("partial_success_report_incomplete", "handled error %q lacks the message or the rejected count of the partial success (%s)", ob.handled[0], shape)
+			bad("partial_success_report_incomplete", "handled error %q lacks the message (verbatim, all %d bytes of it) or the rejected count of the partial success (%s)", clip(ob.handled[0]), len(want), shape)
 		}
 	case expectReport:
 		if len(ob.handled) > 1 {
-			bad("partial_success_reported_twice", "%d errors reached the error handler: %q", len(ob.handled), ob.handled)
+			bad("partial_success_reported_twice", "%d errors reached the error handler: %q", len(ob.handled), clipAll(ob.handled))
 		}
 	case len(ob.handled) > 0 && !orderReliable:
 		// accepted if some partial-success answer in the log explains every report
@@ -1811,11 +2209,11 @@ func evaluate(c Case, ob observation) []vk.Violation {
 				}
 			}
 			if !explained {
-				bad("spurious_partial_success_report", "the error handler received %q, no partial-success answer explains it", h)
+				bad("spurious_partial_success_report", "the error handler received %q, no partial-success answer explains it", clip(h))
 			}
 		}
 	case len(ob.handled) > 0:
-		bad("spurious_partial_success_report", "the error handler received %q without a partial-success answer being the final one", ob.handled)
+		bad("spurious_partial_success_report", "the error handler received %q without a partial-success answer being the final one", clipAll(ob.handled))
 	}
 	return vs
 }
@@ -1837,6 +2235,37 @@ func durClass(d time.Duration) string {
 	return "huge(>1h)"
 }
 
+// sizeClass names a size by its magnitude.
+func sizeClass(n int) string {
+	switch {
+	case n < 1<<10:
+		return "<1KiB"
+	case n < 4<<10:
+		return "1..4KiB"
+	case n < 64<<10:
+		return "4..64KiB"
+	case n < 512<<10:
+		return "64..512KiB"
+	}
+	return ">=512KiB"
+}
+
+// clip shortens a text for a violation message.
+func clip(s string) string {
+	if len(s) <= 300 {
+		return s
+	}
+	return fmt.Sprintf("%s...(%d bytes)...%s", s[:160], len(s), s[len(s)-60:])
+}
+
+func clipAll(ss []string) []string {
+	out := make([]string, len(ss))
+	for i, s := range ss {
+		out[i] = clip(s)
+	}
+	return out
+}
+
 func classify(c Case, ob observation) vk.Info {
 	var info vk.Info
 	ex := exporters[c.Exporter]
@@ -1845,7 +2274,7 @@ func classify(c Case, ob observation) vk.Info {
 	info.Class(fmt.Sprintf("attempts=%d", len(es)))
 	info.Class("plan=" + c.Plan)
 	info.ClassIf(c.Plan != "none" && ob.planFired, "plan_fired")
-	if ob.shutdownCalledAt >= 0 && ob.returned && (c.Plan == "shutdown_abort_wait" || c.Plan == "shutdown_abort_attempt") && ob.shutdownAt >= 0 {
+	if ob.shutdownCalledAt >= 0 && ob.returned && abortPlan(c.Plan) && ob.shutdownAt >= 0 {
 		info.Class("shutdown_abort/" + c.Exporter + "=export_aborted_within_deadline+slack")
 	}
 	if c.Plan == "shutdown_in_wait" && c.InitialMS >= 100 && ob.shutdownCalledAt >= 0 && ob.returned {
@@ -1993,7 +2422,62 @@ func classify(c Case, ob observation) vk.Info {
 	}
 	info.ClassIf(c.Interfere > 0, fmt.Sprintf("interfering_exports=%d(received %d)", c.Interfere, len(ob.interf)))
 	info.ClassIf(c.Interfere > 0 && c.Gzip, "interfering_export_with_gzip")
-	info.ClassIf(c.TimeoutMS > 0 && c.TimeoutMS <= shortTimeout, "short_timeout")
+	info.ClassIf(c.shortTO(), "short_timeout")
+	info.ClassIf(c.Conn, c.Exporter+":WithGRPCConn")
+	info.ClassIf(c.Conn && abortPlan(c.Plan) && ob.shutdownCalledAt >= 0, c.Exporter+":WithGRPCConn,plan="+c.Plan)
+	if c.Items > 3 {
+		info.Class("payload_items=" + map[bool]string{true: "4..64", false: "65..2049"}[c.Items <= 64])
+		info.ClassIf(len(es) > 1, "payload_items>3_re-sent")
+		info.ClassIf(len(es) > 1 && c.Gzip, "payload_items>3_re-sent_gzip")
+	}
+	if abortPlan(c.Plan) && ob.shutdownCalledAt >= 0 {
+		ctxShape := "deadline_200/300ms"
+		switch c.ShutdownMS {
+		case 1:
+			ctxShape = "deadline_1ms"
+		case -1:
+			ctxShape = "cancelled_before"
+		case -2:
+			ctxShape = "expired_before"
+		}
+		info.Class(c.Exporter + ":abort,shutdown_context=" + ctxShape)
+	}
+	via := c.TimeoutVia
+	if via == "" && c.TimeoutMS > 0 {
+		via = "option"
+	}
+	info.Class("exporter_timeout=" + c.timeoutClass())
+	info.ClassIf(via != "", "exporter_timeout_via="+via)
+	info.ClassIf(c.TimeoutSpell != "", "exporter_timeout_env_spelling="+c.TimeoutSpell)
+	if d, ok := c.timeout(); ok && d <= 0 {
+		info.Class(c.Exporter + ":exporter_timeout_disabled(<=0)")
+	}
+	if abortPlan(c.Plan) && ob.shutdownCalledAt >= 0 {
+		info.Class(fmt.Sprintf("%s:plan=%s,exporter_timeout=%s", c.Exporter, c.Plan, c.timeoutClass()))
+	}
+	if ctxPlan(c.Plan) && ob.planFired {
+		info.Class("context_end,exporter_timeout=" + c.timeoutClass())
+	}
+	if c.tinyTO() {
+		res := "error"
+		if ob.returned && ob.err == nil {
+			res = "nil"
+		}
+		info.Class(fmt.Sprintf("%s:tiny_timeout=>%s", c.Exporter, res))
+	}
+	for _, e := range es {
+		if st, ok := c.stepAt(e.Step); ok && st.Pad > 0 && (e.Outcome == oPartial || e.Outcome == oRetryable || e.Outcome == oNonRetryable) {
+			what := "failure_answer"
+			if e.Outcome == oPartial {
+				what = "partial_success"
+				if st.Msg == "empty" {
+					continue
+				}
+			}
+			info.Class(what + "_size=" + sizeClass(st.Pad))
+			info.ClassIf(e.Outcome == oPartial, c.Exporter+":partial_success_size="+sizeClass(st.Pad))
+		}
+	}
 	nontrivial := false
 	for i, st := range c.Script {
 		if stepRetryable(ex.grpc, st) && i+1 < len(c.Script) {
@@ -2036,12 +2520,12 @@ func classify(c Case, ob observation) vk.Info {
 		info.ClassIf((l.Outcome == oNetErr || l.Outcome == oAbandoned) && ob.err != nil, "ended_on_network_failure")
 		info.ClassIf(l.Outcome == oPermNetErr && ob.err != nil, c.Exporter+":gave_up_on_permanent_network_error")
 	}
-	if c.TimeoutMS > 0 && c.TimeoutMS <= shortTimeout {
+	if c.shortTO() {
 		// Observation only (not part of the statement): does WithTimeout bound
 		// the whole export, as its documentation says for five of the six
 		// exporters, or each attempt?
 		for i := 1; i < len(es); i++ {
-			if es[i].Arrive-ob.start > time.Duration(c.TimeoutMS)*time.Millisecond+slackElapsed {
+			if to, _ := c.timeout(); es[i].Arrive-ob.start > to+slackElapsed {
 				if ex.grpc {
 					info.Class("grpc_attempt_after_export_timeout_observed")
 				} else {
@@ -2198,7 +2682,7 @@ var known = map[string]func(Case, vk.Violation) bool{
 }
 
 const ruleCommon = "one export per case against a scripted loopback collector; script of 1..7 answers (or, ~1/6 of the cases, an ENDLESS collector that repeats a retryable answer for ever while the export context is cancelled before / expired before / expires 20..300 ms into / is cancelled during the call), retry config {disabled, 1ms/5ms backoff with MaxElapsedTime 0/20ms/500ms/5s/1ns/1us/2^62ns/MaxInt64ns, in 1/3 of those InitialInterval and MaxInterval independently from {0, 1ns, 1us, 1..8ms} (Initial > Max, Max == 0, no back-off at all), 400ms backoff, 10min / 1h / MaxInt64ns backoff ended by the context only}, partial success with count {0, >0} x error_message {text, text with printf verbs, absent}, " +
-	"exporter timeout {default, 15s/30s, 100/200ms with held requests}, exporter life cycle {New; trace: NewUnstarted->Shutdown->Start, Start twice; all: Shutdown before the export}, gzip on/off, WithHeaders with 0/1/2 pairs, exporter age (export made MaxElapsedTime(300/500ms)+150ms after construction, optionally after a first successful export on the same instance), optionally 1-2 interfering exports of another payload through a second exporter instance while the export waits for its retry, plan {none, ctx cancelled before, cancel while attempt K is held, cancel / Shutdown after answer K, and for the two trace exporters Shutdown(200/300 ms deadline) during a 10 min back-off wait / a held attempt}; " +
+	"exporter timeout {unset, 0, negative (-1ns..-10s), 15s..1h, 2^62ns} x {WithTimeout, *_TIMEOUT signal / general variable in 4 spellings, both variables, option over variables} in every scenario but one, {100/200ms, 1ms/1us/1ns} with held requests in that one; size of the partial-success error_message / failure body / status message 0 B..1 MiB on a log scale (1/3 of partial successes, every answer of the 'sized' scenario ~1/8 of the cases); payload 1..3 items, 1/7: 3..2049 items; gRPC: WithGRPCConn 1/5, exporter life cycle {New; trace: NewUnstarted->Shutdown->Start, Start twice; all: Shutdown before the export}, gzip on/off, WithHeaders with 0/1/2 pairs, exporter age (export made MaxElapsedTime(300/500ms)+150ms after construction, optionally after a first successful export on the same instance), optionally 1-2 interfering exports of another payload through a second exporter instance while the export waits for its retry, plan {none, ctx cancelled before, cancel while attempt K is held, cancel / Shutdown after answer K, and for the two trace exporters Shutdown(context with a 200/300 ms or 1 ms deadline, cancelled before, expired before) during a 10 min back-off wait / a held attempt / endless retrying against a collector that answers retryable outcomes for ever}; " +
 	"non-trivial = the script contains a retryable answer followed by something; distinct = distinct case encodings"
 
 func TestHTTPRetry(t *testing.T) {
